@@ -73,10 +73,10 @@ def lminOf (R2 D alphaMin : α) : α :=
 def lmaxOf (R2 D : α) : α := sqrt (p2 D - R2)
 /-- `normThetaTrSubV = 2 / sin²θ_max` -/
 def normThetaTr (sinMax : α) : α := 2 / p2 sinMax
-/-- `normPhiTrSubV = 1/(2π)` -/
-def normPhiTr : α := 1 / (2 * pi)
-/-- `normPhiS = 1/(maxPhiS − minPhiS)` -/
-def normPhiSOf (maxPhiS minPhiS : α) : α := 1 / (maxPhiS - minPhiS)
+/-- `normPhiTrSubV = np.reciprocal(2π)` (`np.reciprocal x` is `1.0 / x`) -/
+def normPhiTr : α := 1.0 / (2 * pi)
+/-- `normPhiS = np.reciprocal(maxPhiS − minPhiS)` -/
+def normPhiSOf (maxPhiS minPhiS : α) : α := 1.0 / (maxPhiS - minPhiS)
 /-- `bracketForNormThetaS` -/
 def bracketOf (R2 D Lmin Lmax : α) : α :=
   (p2 D - R2) * Lmax - (1.0 / 3.0) * p3 Lmax - (p2 D - R2) * Lmin + (1.0 / 3.0) * p3 Lmin
